@@ -400,6 +400,17 @@ func restartBody(c *nd.Ctx) nd.Result {
 		toV = append(toV, c.Choose(4, "to-variant"))
 		nsV = append(nsV, c.Choose(3, "content-namespace-variant")) // 0 as before, 1 not declared, 2 unsupported
 	}
+	// a client need not name itself before it has authenticated: the first
+	// header (and then every later one) carries no from; the to it names is
+	// established all the same
+	noFrom := recv && c.Choose(2, "client-never-sends-from") == 1
+	if noFrom {
+		for _, v := range fromV {
+			if v != 2 {
+				return nd.Result{Skip: true}
+			}
+		}
+	}
 	origin := jid.MustParse("me@example.com/res")
 	location := jid.MustParse("example.com")
 	c.Note("role recv=%v restarts=%d from-variants=%v to-variants=%v namespace-variants=%v", recv, nRestarts, fromV, toV, nsV)
@@ -414,6 +425,11 @@ func restartBody(c *nd.Ctx) nd.Result {
 	baseFrom, baseTo := location.String(), origin.String()
 	if recv {
 		baseFrom, baseTo = origin.String(), location.String()
+	}
+	if noFrom {
+		baseFrom = ""
+		desc += " (the client never sends a from)"
+		res.NonTrivial = desc
 	}
 	// the first differing header index (1-based restart), 0 if none differs
 	firstDiff := 0
@@ -662,16 +678,29 @@ func bindClientBody(c *nd.Ctx) nd.Result {
 
 var reqResources = []string{"", "r", `it's<&>"r`}
 
-func bindServerBody(c *nd.Ctx) nd.Result {
+var chosenDesc string
+
+func bindServerBody(c *nd.Ctx) (res nd.Result) {
 	cb := c.Choose(4, "callback") // 0 nil (BindResource), 1 returns jid, 2 returns stanza error, 3 returns other error
 	reqRes := reqResources[c.Choose(len(reqResources), "requested-resource")]
 	sessions := 1 + c.Choose(2, "sessions-with-same-feature")
 	c.Note("callback=%d requested resource %q sessions=%d", cb, reqRes, sessions)
 	desc := fmt.Sprintf("callback=%d (0 none, 1 jid, 2 stanza error, 3 other error) requested resource %q sessions=%d", cb, reqRes, sessions)
-	res := nd.Result{Outcome: fmt.Sprintf("cb%d", cb), NonTrivial: desc}
+	defer func() {
+		if cb == 1 && res.Violation != nil {
+			res.Violation.Msg = "callback address " + chosenDesc + ": " + res.Violation.Msg
+		}
+	}()
+	res = nd.Result{Outcome: fmt.Sprintf("cb%d", cb), NonTrivial: desc}
 	var gotReq []string
 	var feature xmpp.StreamFeature
+	// the address the callback chooses: the requesting account with a resource of
+	// its own, another localpart, another domain, a domain-only account
 	chosen := jid.MustParse("me@example.com/chosen'<")
+	if cb == 1 {
+		chosen = jid.MustParse([]string{"me@example.com/chosen'<", "anon-7f3a@example.com/r1", "me@other.example/r1", "example.com/r1"}[c.Choose(4, "callback-address")])
+	}
+	chosenDesc = chosen.String()
 	switch cb {
 	case 0:
 		feature = xmpp.BindResource()
